@@ -447,8 +447,26 @@ pub fn run_c05(ctx: &Ctx) -> ! {
         for i in 0..n_raw / WORKERS as u64 {
             let pf = rng.below(2) as u32;
             let ps = if rng.chance(1, 8) { pf } else { 1 - pf };
-            let first = (pf, rng.bits(17) as u32, rng.bits(17) as u32);
-            let second = (ps, rng.bits(17) as u32, rng.bits(17) as u32);
+            let mut first = (pf, rng.bits(17) as u32, rng.bits(17) as u32);
+            let mut second = (ps, rng.bits(17) as u32, rng.bits(17) as u32);
+            if pf != ps && i % 16 == 3 {
+                // exact ties of the zone-index rounding: 59 YZ0 - 60 YZ1 = -65536 (2t + 1), i.e. the
+                // argument of floor(x + 1/2) is exactly -(t + 1/2) (how a tie is broken differs
+                // between floor(x + 1/2) and round-half-away-from-zero); likewise for the longitude index
+                let t = rng.below(30) as i64;
+                let rhs = 65536 * (2 * t + 1);
+                let lo_min = (rhs + 59) / 60;
+                let base = (rhs % 59 + 59) % 59; // YZ1 = rhs (mod 59) because 60 = 1 (mod 59)
+                let kmax = (131071 - base) / 59;
+                let yz1 = base + 59 * (rng.below(kmax as u64 + 1) as i64);
+                let yz0 = (60 * yz1 - rhs) / 59;
+                if yz1 >= lo_min && (0..131072).contains(&yz0) && (60 * yz1 - rhs) % 59 == 0 {
+                    let (e, o) = if pf == 0 { (&mut first, &mut second) } else { (&mut second, &mut first) };
+                    e.1 = yz0 as u32;
+                    o.1 = yz1 as u32;
+                    st.class("B:latitude index tie");
+                }
+            }
             st.eval();
             let (sigs, nontrivial, dc) = eval_raw(first, second);
             if dc {
